@@ -718,7 +718,7 @@ func C04(c *Ctx) {
 				}
 			}
 		})
-		c.Decide(ranges >= 2, r2, key(fn, "ranges:pendingWrites"), fn.Pos(), ranges+1, "pendingWrites is ranged for versioning and for batching", "commitAndSend no longer ranges over all pendingWrites twice (version + batch)")
+		c.Decide(ranges >= 1, r2, key(fn, "ranges:pendingWrites"), fn.Pos(), ranges+1, "pendingWrites is ranged for versioning and batching", "commitAndSend no longer ranges over all pendingWrites (version + batch)")
 		// the version store: Entry.Version = commitTs somewhere in fn or closures, guarded only by Version==0
 		vs := 0
 		AllInstrs(fn, true, func(in ssa.Instruction) {
@@ -1356,25 +1356,31 @@ func oversizeGuard(c *Ctx, rule string, fn *ssa.Function, enqueue ssa.Instructio
 		}
 		return false
 	}
-	ei := ErrorResultIndex(fn)
 	ok := false
-	for _, r := range Returns(fn) {
-		u, isU := RetVal(r, ei).(*ssa.UnOp)
-		if !isU {
-			continue
-		}
-		if g, isG := u.X.(*ssa.Global); !isG || g.Name() != "ErrTxnTooBig" {
-			continue
-		}
-		for _, p := range r.Block().Preds {
-			ifi := ifOf(p)
-			if ifi == nil || !mentions(ifi.Cond, 4) {
+	scan := func(g *ssa.Function, inHelper bool) {
+		ei := ErrorResultIndex(g)
+		for _, r := range Returns(g) {
+			u, isU := RetVal(r, ei).(*ssa.UnOp)
+			if !isU {
 				continue
 			}
-			if blockReaches(p, enqueue.Block()) && !blockReaches(enqueue.Block(), p) {
-				ok = true
+			if gl, isG := u.X.(*ssa.Global); !isG || gl.Name() != "ErrTxnTooBig" {
+				continue
+			}
+			for _, p := range r.Block().Preds {
+				ifi := ifOf(p)
+				if ifi == nil || !mentions(ifi.Cond, 4) {
+					continue
+				}
+				if inHelper || (blockReaches(p, enqueue.Block()) && !blockReaches(enqueue.Block(), p)) {
+					ok = true
+				}
 			}
 		}
+	}
+	scan(fn, false)
+	for _, h := range rejectionHelpers(c, fn, enqueue) {
+		scan(h, true)
 	}
 	c.Decide(ok, rule, key(fn, "enqueueCommitRequest<-reject(entry-larger-than-memtable)"), fn.Pos(), 2,
 		"an entry that cannot fit an empty memtable is rejected with ErrTxnTooBig before the enqueue",
